@@ -789,6 +789,102 @@ example :
       (Ex.zipOps exRTHistOps ((tr.take 7).modify 6 fun _ => { (tr.getD 5 ⟨.unit, exRTWorld2, none⟩) with res := .err .keyError })) = false := by
   decide +kernel
 
+/-! ## the same for the states the managers reach through the `SimIface` instance; the getters are total -/
+
+/-- every state a manager can drive the `SimIface` instance into is `RT.GoodH` (`reach_simIface_reachable` with the reward
+dict and the stored positions) -/
+theorem reach_simIface_goodH (cfg : RT.Cfg) (w0 : World) (n : Nat) (hcfg : CfgOK w0)
+    (hfresh : w0.vitalsAlive = true) (hR : Ex.ResetOK cfg.toEx w0 cfg.comps) {s : Ex.St}
+    (h : RT.Reach cfg w0 n s) : RT.GoodH cfg w0 s := by
+  induction h with
+  | init t => rfl
+  | @reset s _ ih =>
+    have hg := RT.runOp_goodH hcfg hfresh s (.reset cfg.comps s.tape) hR ih
+    simp only [RT.runOp] at hg
+    simp only [RT.toSimIface]
+    cases hr : Ex.reset cfg.toEx cfg.comps s with
+    | error e => exact ih
+    | ok s' =>
+      have hr' : Ex.reset cfg.toEx cfg.comps { s with tape := s.tape } = .ok s' := hr
+      simpa [hr'] using hg
+  | @step s acts _ ih =>
+    have hg := RT.runOp_goodH hcfg hfresh s (.step acts s.tape) trivial ih
+    simp only [RT.runOp] at hg
+    simp only [RT.toSimIface]
+    cases hr : RT.step cfg s acts with
+    | error e => exact ih
+    | ok s' =>
+      have hr' : RT.step cfg { s with tape := s.tape } acts = .ok s' := hr
+      simpa [hr'] using hg
+  | @obs s a _ ih =>
+    have := RT.runOp_goodH hcfg hfresh s (.obs a s.tape) trivial ih
+    simp only [RT.runOp] at this
+    simp only [RT.toSimIface]
+    split <;> simp_all
+  | @reward s a _ ih =>
+    have := RT.runOp_goodH hcfg hfresh s (.rew a) trivial ih
+    simp only [RT.runOp] at this
+    simp only [RT.toSimIface]
+    split <;> simp_all
+
+/-- **under the managers the totalisation of `RT.toSimIface.step` is never used for in-space actions**: in every state a
+manager can reach (any resets, steps with ANY dicts, getter calls — `WInvWeak` only), once a reset has returned, `step` of
+the model returns for every action dict whose items are points of the declared action spaces of learning agents, and the
+`SimIface` step is that result -/
+theorem reach_simIface_step_returns (cfg : RT.Cfg) (w0 : World) (n : Nat) (hcfg : CfgOK w0)
+    (hfresh : w0.vitalsAlive = true) (hR : Ex.ResetOK cfg.toEx w0 cfg.comps) {s : Ex.St}
+    (h : RT.Reach cfg w0 n s) (hs : s.rewards.isSome = true)
+    (acts : List (Aid × Ex.Act)) (hS : ∀ x ∈ acts, Ex.ItemOK cfg.toEx w0 x) :
+    RT.step cfg s acts = .ok ((RT.toSimIface cfg n).step s acts) := by
+  have hG := reach_simIface_goodH cfg w0 n hcfg hfresh hR h
+  unfold RT.GoodH at hG
+  cases hr : s.rewards with
+  | none => rw [hr] at hs; cases hs
+  | some r =>
+    rw [hr] at hG
+    obtain ⟨hW, hF, hL, _⟩ := hG
+    obtain ⟨p, hp, _⟩ := RT.stepPS_ok_weak (cfg := cfg) (w0 := w0) ⟨s.w, r, s.tape⟩ acts ⟨hW, hF, hL⟩ hS
+    have : RT.step cfg s acts = .ok { w := p.w, rewards := some p.r, tape := p.t } := by
+      simp only [RT.step, hr, hp]
+    simp only [RT.toSimIface, this]
+
+/-- **the getters do not raise in any reachable state** (`WInvWeak` only): `get_reward` of a learning agent returns (the
+reward dict has an entry for every learning agent — `step` never loses a key), `get_done` of every agent of the simulation
+and `get_all_done` return -/
+theorem reach_getters_total (cfg : RT.Cfg) (w0 : World) (hcfg : CfgOK w0) (hfresh : w0.vitalsAlive = true)
+    (t0 : Tape) (ops : List Ex.EOp) (hops : ∀ op ∈ ops, RT.OpOK cfg w0 op) (a : Aid) (ha : a < w0.n) :
+    let s := (RT.runOps cfg { w := w0, tape := t0 } ops).2
+    s.rewards.isSome = true →
+    (cfg.isLearning a = true → ∃ x s', Ex.getReward cfg.toEx s a = .ok (x, s')) ∧
+    (∃ b, RT.getDone cfg s a = .ok b) ∧ (∃ b, RT.getAllDone cfg s = .ok b) := by
+  intro s hs
+  have hG : RT.GoodH cfg w0 s := RT.reachable_goodH cfg w0 hcfg hfresh t0 ops hops
+  unfold RT.GoodH at hG
+  cases hr : s.rewards with
+  | none => rw [hr] at hs; cases hs
+  | some r =>
+    rw [hr] at hG
+    obtain ⟨_, hF, hL, _⟩ := hG
+    have ha' : ¬ s.w.n ≤ a := by rw [sframe_n hF]; exact Nat.not_le.mpr ha
+    refine ⟨fun hl => ?_, ?_, ⟨RT.onlyLeft cfg s.w, by simp only [RT.getAllDone, hr]⟩⟩
+    · have hfull := hL a ha hl
+      obtain ⟨x, hx⟩ := Option.isSome_iff_exists.mp hfull
+      exact ⟨x, { s with rewards := some (dictSet r a 0) }, by simp only [Ex.getReward, hr, Ex.rewardVal, hx]⟩
+    · simp only [RT.getDone, hr, RT.doneW, ha', if_false]
+      split
+      · exact ⟨_, rfl⟩
+      · split <;> exact ⟨_, rfl⟩
+
+/-- `reach_getters_total` in the `WInvWeak`-only state of the examples: the deactivated runner's reward, its done flag -/
+example : (∃ x s', Ex.getReward exRTCfg.toEx exRTState2 1 = .ok (x, s')) ∧ (∃ b, RT.getDone exRTCfg exRTState2 1 = .ok b) :=
+  have h := reach_getters_total exRTCfg exRTWorld2 ((cfgOKb_iff _).mp (by decide +kernel)) (by decide +kernel) [] exRTOps
+    (fun op hop => by
+      simp only [exRTOps, List.mem_cons, List.mem_nil_iff, or_false] at hop
+      rcases hop with rfl | rfl
+      · exact Ex.resetOK_of_b (by decide +kernel)
+      · trivial) 1 (by decide) (by decide +kernel)
+  ⟨h.1 (by decide), h.2.1⟩
+
 /-- the manager theorems are inhabited: a turn-based run over `exRTWorld2` -/
 example : specC01 .turnBased 3 exRTCfg.isLearning false
     (runOps (RT.toSimIface exRTCfg 3) .turnBased (mgrInit ({ w := exRTWorld2 } : Ex.St) false [])
